@@ -56,11 +56,49 @@ def tasks(tier, seed):
     for b in BRIDGES:
         ts.append(dict(kind='strain', bridge=b, v0=True))
         ts.append(dict(kind='strain', bridge=b, v0=False))
+    # the same obligations with the object built by from_properties at scale index 0 / 2 (decoys under the other indices)
+    for via in (0, 2):
+        for cfg in ((3,) if tier == 'quick' else (2, 3, 4)):
+            ts.append(dict(kind='rtd', cfg=cfg, via=via))
+            ts.append(dict(kind='rtdneg', cfg=cfg, via=via))
+            for exc in ('current', 'voltage'):
+                ts.append(dict(kind='thermistor', cfg=cfg, exc=exc, via=via))
+        for b in (('quarter1', 'full3') if tier == 'quick' else BRIDGES):
+            ts.append(dict(kind='strain', bridge=b, v0=True, via=via))
     for n in range(0, 5 if tier == 'quick' else 7):
         ts.append(dict(kind='poly', n=n))
     for order in ('inc', 'dec'):
         ts.append(dict(kind='table', order=order, n=3 if tier == 'quick' else 4))
     return ts
+
+
+RTD_KEYS = ['RTD_Current_Excitation', 'RTD_R0_Nominal_Resistance', 'RTD_A', 'RTD_B', 'RTD_C', 'RTD_Lead_Wire_Resistance',
+            'RTD_Resistance_Configuration', 'RTD_Input_Source']
+STRAIN_KEYS = ['Strain_' + k for k in ('Configuration', 'Poisson_Ratio', 'Gage_Resistance', 'Lead_Wire_Resistance',
+                                       'Initial_Bridge_Voltage', 'Gage_Factor', 'Bridge_Shunt_Calibration_Gain_Adjustment',
+                                       'Voltage_Excitation', 'Input_Source')]
+THERMISTOR_KEYS = ['Thermistor_' + k for k in ('Excitation_Type', 'Excitation_Value', 'Resistance_Configuration',
+                                               'R1_Reference_Resistance', 'Lead_Wire_Resistance', 'A', 'B', 'C',
+                                               'Temperature_Offset', 'Input_Source')]
+
+
+def _build(cls, keys, args, task):
+    """The scaling object: by constructor, or (task['via'] = scale index k) through from_properties on a property map that
+    carries the parameters under NI_Scale[k]_<NI's key> and decoys (other numbers, invalid configuration codes) under the other
+    two indices -- the way TdmsChannel builds it from NI_Scale properties."""
+    k = task.get('via')
+    if k is None:
+        return cls(*args)
+    props = {}
+    for j in range(3):
+        for i, (key, a) in enumerate(zip(keys, args)):
+            if j == k:
+                props['NI_Scale[%d]_%s' % (j, key)] = a
+            elif isinstance(a, int) and not isinstance(a, bool):
+                props['NI_Scale[%d]_%s' % (j, key)] = -7 - j
+            else:
+                props['NI_Scale[%d]_%s' % (j, key)] = 13.0 + 3 * j + i
+    return cls.from_properties(props, k)
 
 
 PURITY_IS_AN_OBLIGATION = False      # purity belongs to C13's statement: C13 runs these harnesses with the flag set
@@ -175,7 +213,7 @@ def run_task(task):
         # physical side conditions: positive resistance/current, A > 0 > B, T on the rising branch of the parabola
         ctx.add(z3.And(T >= 0, r0 > 0, a > 0, b < 0, I > 0, rl >= 0, 2 * b * T + a >= 0))
         cfg = task['cfg']
-        s = sc.RtdScaling(SymReal(I), SymReal(r0), SymReal(a), SymReal(b), STD_C, SymReal(rl), cfg, RAW)
+        s = _build(sc.RtdScaling, RTD_KEYS, (SymReal(I), SymReal(r0), SymReal(a), SymReal(b), STD_C, SymReal(rl), cfg, RAW), task)
         R = r0 * (1 + a * T + b * T * T)
         lead = {2: 2 * rl, 3: rl, 4: 0 * rl}[cfg]
         V = I * (R + lead)
@@ -191,7 +229,7 @@ def run_task(task):
         ctx.add(z3.And(T < 0, T >= -200, r0 > 0, I > 0, rl >= 0))
         cfg = task['cfg']
         A, B, C = rval(STD_A), rval(STD_B), rval(STD_C)
-        s = sc.RtdScaling(SymReal(I), SymReal(r0), STD_A, STD_B, STD_C, SymReal(rl), cfg, RAW)
+        s = _build(sc.RtdScaling, RTD_KEYS, (SymReal(I), SymReal(r0), STD_A, STD_B, STD_C, SymReal(rl), cfg, RAW), task)
         R = r0 * (1 + A * T + B * T * T + C * (T - 100) * T * T * T)
         lead = {2: 2 * rl, 3: rl, 4: 0 * rl}[cfg]
         V = I * (R + lead)
@@ -250,9 +288,16 @@ def run_task(task):
         else:
             V = ex_ * Rm / (r1 + Rm)       # voltage divider
             etype = sc.VOLTAGE_EXCITATION
-        s = sc.ThermistorScaling(etype, SymReal(ex_), cfg, SymReal(r1), SymReal(rl), SymReal(a), SymReal(b), SymReal(c),
-                                 SymReal(off), RAW)
-        out = _scale_pure(ctx, s, rarr([V]), 'thermistor')
+        s = _build(sc.ThermistorScaling, THERMISTOR_KEYS, (etype, SymReal(ex_), cfg, SymReal(r1), SymReal(rl), SymReal(a),
+                                                           SymReal(b), SymReal(c), SymReal(off), RAW), task)
+        try:
+            out = _scale_pure(ctx, s, rarr([V]), 'thermistor')
+        except ZeroDivisionError:
+            # the Steinhart-Hart denominator could not be shown non-zero: that is a violation when the resistance whose
+            # logarithm was taken is not the sensor's (denom != 0 is assumed for ln(R) only); otherwise it stays inconclusive
+            for arg, _lv in getattr(ctx, 'logs', []):
+                _check(ctx, arg != R, 'thermistor-resistance', lambda m: _vals(m, names))
+            raise
         expected = 1 / denom - off
         logs = getattr(ctx, 'logs', [])
         if len(logs) != 1:
@@ -289,8 +334,9 @@ def run_task(task):
             ctx.add(4 + 2 * G * ee > 0)
             Vr = -G * ee / (4 + 2 * G * ee)
         V = V0 + Vex * Vr
-        s = sc.StrainScaling(BRIDGES[bridge], SymReal(nu), SymReal(Rg), SymReal(rl), SymReal(V0) if task['v0'] else 0.0,
-                             SymReal(G), SymReal(gain), SymReal(Vex), RAW)
+        s = _build(sc.StrainScaling, STRAIN_KEYS, (BRIDGES[bridge], SymReal(nu), SymReal(Rg), SymReal(rl),
+                                                   SymReal(V0) if task['v0'] else 0.0, SymReal(G), SymReal(gain), SymReal(Vex),
+                                                   RAW), task)
         out = _scale_pure(ctx, s, rarr([V]), 'strain')
         _check(ctx, out[0].e != e, 'strain', lambda m: _vals(m, names))
         ctx.note('strain')
@@ -351,7 +397,8 @@ def run_task(task):
 
 def signature(c):
     t = c['task']
-    return 'C17/%s/%s/%s' % (t['kind'], t.get('cfg', t.get('bridge', t.get('n', ''))), c.get('what', ''))
+    return 'C17/%s/%s%s/%s' % (t['kind'], t.get('cfg', t.get('bridge', t.get('n', ''))),
+                               '' if t.get('via') is None else '@props[%d]' % t['via'], c.get('what', ''))
 
 
 def _f(s):
@@ -385,7 +432,7 @@ def replay(art):
                 R = v['r0'] * (1 + A * T + B * T * T + C * (T - 100) * T ** 3)
             lead = {2: 2 * v['rl'], 3: v['rl'], 4: 0.0}[cfg]
             V = v['I'] * (R + lead)
-            s = sc.RtdScaling(v['I'], v['r0'], A, B, C, v['rl'], cfg, RAW)
+            s = _build(sc.RtdScaling, RTD_KEYS, (v['I'], v['r0'], A, B, C, v['rl'], cfg, RAW), task)
             got = float(s.scale(np.array([V]))[0])
             if not rel(got, v['T']):
                 return dict(sig=signature(dict(task=task, what=what)), got=got, expected=v['T'], params=v)
@@ -400,7 +447,8 @@ def replay(art):
                   'half1': -G * ee * (1 + nu) / (4 + 2 * G * ee * (1 - nu)), 'half2': -G * ee / 2,
                   'quarter1': -G * ee / (4 + 2 * G * ee), 'quarter2': -G * ee / (4 + 2 * G * ee)}[bridge]
             V = v['V0'] + v['Vex'] * Vr
-            s = sc.StrainScaling(BRIDGES[bridge], nu, v['Rg'], v['rl'], v['V0'], G, v['gain'], v['Vex'], RAW)
+            s = _build(sc.StrainScaling, STRAIN_KEYS, (BRIDGES[bridge], nu, v['Rg'], v['rl'], v['V0'], G, v['gain'], v['Vex'], RAW),
+                       task)
             arr = np.array([V], dtype='float64')
             got = float(s.scale(arr)[0])
             if arr[0] != V and art.get('what') == 'scale-modifies-raw-data':
@@ -414,8 +462,9 @@ def replay(art):
             lead = {2: 2 * v['rl'], 3: v['rl'], 4: 0.0}[cfg]
             Rm = v['R'] + lead
             V = v['ex'] * Rm if exc == 'current' else v['ex'] * Rm / (v['r1'] + Rm)
-            s = sc.ThermistorScaling(sc.CURRENT_EXCITATION if exc == 'current' else sc.VOLTAGE_EXCITATION, v['ex'], cfg,
-                                     v['r1'], v['rl'], v['a'], v['b'], v['c'], v['off'], RAW)
+            s = _build(sc.ThermistorScaling, THERMISTOR_KEYS,
+                       (sc.CURRENT_EXCITATION if exc == 'current' else sc.VOLTAGE_EXCITATION, v['ex'], cfg,
+                        v['r1'], v['rl'], v['a'], v['b'], v['c'], v['off'], RAW), task)
             got = float(s.scale(np.array([V]))[0])
             L = math.log(v['R'])
             exp = 1.0 / (v['a'] + v['b'] * L + v['c'] * L ** 3) - v['off']
